@@ -107,7 +107,17 @@ def plan(ctx):
   tasks += [('strings', i) for i in range(6)]
   files = sorted(glob.glob(os.path.join(ctx.repo, 'integration_tests', '*.l')))
   for ch in explore.shards(files, 8): tasks.append(('spans', ch))
+  for i in range(8): tasks.append(('wide', i, 8))
   return tasks
+
+
+def wide_texts():
+  """long / deeply nested statements and text outside ASCII ahead of the spans (a byte offset differs from a character offset there)"""
+  out = list(c06.wide_inputs())
+  out += ['# \u00e9\u00e9\u00e9 \u65e5\u672c\nT(x + 1, "\u00fc") :- A(x), x > 2, y == [x, 1], B("\u00e9", y);\nU(z * 2) :- T(z, "\u00e9\u00e9"), z in [1, 2 + 3];',
+          'T("\U0001F600", x + 1) :- A(x, "\U0001F600\U0001F600"), x * 2 > 3;', '/* \u65e5\u672c\u8a9e */ T(x) :- A(x), (x + 1) * 2 == 4 | B(x), ~C(x - 1);',
+          'T(`\u00e9`: x + 1, b: x * 2) :- A(x);', '\r\n'.join(['T(x + 1) :- A(x),', '  x > 2,', '  B(x * 3);', 'U(y - 1) :- T(y);']), 'T(x\t+\t1) :-\tA(x),\tx\t>\t2;']
+  return out
 
 
 def work(task):
@@ -198,6 +208,14 @@ def work(task):
             got = set(find_strings(o[2]['rule']))
             if ev not in got: bad('string-content-altered/py', 'literal %r not found among parsed strings %r' % (ev, sorted(got)[:4]), v, host)
       if task[1] == 0: samples.append(dict(host=host, evil_strings=EVIL[:8]))
+  elif task[0] == 'wide':
+    for k, text in enumerate(wide_texts()):
+      if k % task[2] != task[1]: continue
+      o = both(text)
+      for mode, oo in zip(('py', 'cpp'), o):
+        if oo[0] != 'ok': continue
+        stats['statements'] += 1
+        check_spans(oo[2]['rule'], text, mode, 'wide', stats, bad)
   else:
     # statements of every .l file of the repository (imported rules are anchored in the file they come from)
     corpus = set()
